@@ -107,10 +107,16 @@ fn shared_fn(round: u64, threads: usize, interp: &Interpreter, variant: u64) {
         other => violation(round, kind, "harness", format!("no function: {other:?}")),
     };
     let array = Code::parse(&Interpreter::without_stdlib(), "[4, 5]").unwrap().exec().unwrap();
+    // thread 0 repeats one scalar argument, thread 1 alternates two, the others cycle through
+    // three types (an implementation that remembers its last call meets its own arguments again
+    // while another thread interleaves different ones)
     let arg = move |t: usize, k: usize| -> Variable {
-        match (t + k * (t + 1)) % 3 {
-            0 => Variable::Int((t * 10 + k) as i64),
-            1 => Variable::String("s".into()),
+        match (t, k % 3) {
+            (0, _) => Variable::Int(7),
+            (1, 0) | (1, 2) => Variable::String("s".into()),
+            (1, _) => Variable::Int(1),
+            (_, 0) => Variable::Int((t * 10 + k) as i64),
+            (_, 1) => Variable::String("t".into()),
             _ => array.clone(),
         }
     };
@@ -145,7 +151,7 @@ fn counter(round: u64, threads: usize, variant: u64, interp: &mut Interpreter) {
         .exec_unscoped(interp)
         .unwrap_or_else(|e| violation(round, kind, "harness", format!("declarations failed: {e:?}")));
     let k = 3;
-    let progs: Vec<String> = match variant % 4 {
+    let progs: Vec<String> = match variant % 5 {
         // every thread increments; yields are collected
         0 => (0..threads).map(|_| format!("r := mut [int] []; i := mut 0; while *i < {k} {{ i += 1; r += [c += 1] }}; *r")).collect(),
         // commuting pairs (+1/-1, +5/-5) and identities (|0, <<0, *1): content returns to 0; a
@@ -157,12 +163,21 @@ fn counter(round: u64, threads: usize, variant: u64, interp: &mut Interpreter) {
                 _ => "x := std.convert.to_string(c); y := std.convert.to_string([c, c]); c *= 1; std.len(x) + std.len(y)".to_string(),
             })
             .collect(),
-        // two cells updated from each other in both orders, plus a cell that contains itself
+        // two cells updated from each other in both orders; a cell that contains itself is rendered
+        // by some threads while others re-assign it (a renderer that holds its guard while walking
+        // into the cell again meets a queued writer)
         2 => (0..threads)
             .map(|t| match t % 3 {
-                0 => "a += *b; a -= *b; (a == b, *a > 0)".to_string(),
-                1 => "b += *a; b -= *a; (b == a, *b > 0)".to_string(),
-                _ => "x := std.convert.to_string(s); s = [s, c]; std.len(x) > 0".to_string(),
+                0 => "a += *b; s = [s, c]; a -= *b; s = [c, s]; (a == b, *a > 0)".to_string(),
+                1 => "b += *a; x := std.convert.to_string(s); b -= *a; y := std.convert.to_string([s, s]); std.len(x) + std.len(y)".to_string(),
+                _ => "x := std.convert.to_string(s); s = [s, c]; y := std.convert.to_string(s); std.len(x) > 0".to_string(),
+            })
+            .collect(),
+        // one writer, many readers: after its own `w = k` the only writer must read k back
+        3 => (0..threads)
+            .map(|t| match t {
+                0 => "r := mut [int] []; i := mut 0; while *i < 4 { i += 1; a = *i * 10; r += [*a] }; *r".to_string(),
+                _ => "x := mut 0; i := mut 0; while *i < 6 { i += 1; x += *a }; *x >= 0".to_string(),
             })
             .collect(),
         // array cell: every thread appends its own elements
@@ -180,7 +195,10 @@ fn counter(round: u64, threads: usize, variant: u64, interp: &mut Interpreter) {
             Err(p) => violation(round, kind, "panic", format!("thread {t} panicked running `{}`: {p}", progs[t])),
             Ok(Err(e)) => violation(round, kind, "error", format!("thread {t} running `{}` failed: {e:?}", progs[t])),
             Ok(Ok(v)) => {
-                if variant % 4 == 0 {
+                if variant % 5 == 3 && t == 0 && format!("{v:?}") != "[10, 20, 30, 40]" {
+                    violation(round, kind, "lost-update", format!("the only writer of cell a stored 10, 20, 30, 40 and read {v:?} back right after each store (other threads only read a)"));
+                }
+                if variant % 5 == 0 {
                     let text = format!("{v:?}");
                     for n in text.split(|ch: char| !ch.is_ascii_digit() && ch != '-').filter(|s| !s.is_empty()) {
                         if let Ok(n) = n.parse::<i64>() {
@@ -192,7 +210,7 @@ fn counter(round: u64, threads: usize, variant: u64, interp: &mut Interpreter) {
         }
     }
     let content = |name: &str| format!("{:?}", Code::parse(interp, &format!("*{name}")).unwrap().exec());
-    match variant % 4 {
+    match variant % 5 {
         0 => {
             let n = (threads * k) as i64;
             yields.sort();
